@@ -30,6 +30,41 @@ struct c03_session : public vsim_session {
       }
       return true;
     }
+    if (cmd == "shufflestate") {
+      // shufflestate IN OUT seed: rewrite a text state with its top-level blocks after `configuration` in another
+      // order (rotation by seed, then reversed when seed is odd) and one foreign block inserted
+      std::ifstream in(a[0].c_str());
+      std::stringstream ss; ss << in.rdbuf();
+      std::string txt = ss.str();
+      std::vector<std::string> blocks;
+      size_t i = 0, n = txt.size();
+      while (i < n) {
+        while (i < n && isspace((unsigned char) txt[i])) i++;
+        if (i >= n) break;
+        size_t start = i;
+        size_t ob = txt.find('{', i);
+        if (ob == std::string::npos) break;
+        int depth = 1; size_t j = ob + 1;
+        while (j < n && depth > 0) { if (txt[j] == '{') depth++; else if (txt[j] == '}') depth--; j++; }
+        blocks.push_back(txt.substr(start, j - start));
+        i = j;
+      }
+      std::ofstream outf(a[1].c_str());
+      int seed = a.size() > 2 ? atoi(a[2].c_str()) : 1;
+      if (blocks.size()) outf << blocks[0] << "\n\n";
+      std::vector<std::string> rest(blocks.begin() + (blocks.size() ? 1 : 0), blocks.end());
+      if (rest.size()) {
+        std::rotate(rest.begin(), rest.begin() + (seed % rest.size()), rest.end());
+        if (seed % 2) std::reverse(rest.begin(), rest.end());
+      }
+      for (size_t k = 0; k < rest.size(); k++) {
+        if (k == rest.size() / 2) outf << "harmonic {\n  configuration {\n    step 0\n    name not_in_this_configuration\n  }\n}\n\n";
+        outf << rest[k] << "\n\n";
+      }
+      outf.close();
+      o << "SHUFFLED " << rest.size() << "\n";
+      return true;
+    }
     if (cmd == "statestr") {
       cvm::clear_error();
       std::string s;
